@@ -22,6 +22,9 @@ type c08scn struct {
 	files pkgFiles
 	args  []string
 	flags []string
+	// reload: the first load of the program is part of every execution (the loader's
+	// file parse order is then a choice as well); costs one load per execution
+	reload bool
 }
 
 func c08Scenarios() []c08scn {
@@ -132,9 +135,15 @@ func helper(x int) int { return x }
 
 var _ = helper(1)
 `}},
+		{name: "calls-in-several-files", args: []string{"."}, reload: true, files: pkgFiles{
+			"a.go": "package m\n\n// A is declared in the first file.\n//\n// " + strings.Repeat("padding ", 200) + "\ntype A struct {\n\tS []string\n\tM map[string][]int\n}\n\nfunc useA(x, y *A) bool {\n\treturn deriveEqualA(x, y)\n}\n",
+			"b.go": "package m\n\ntype B struct {\n\tL [][]int\n\tA *A\n}\n\nfunc useB(x, y *B) (bool, int) {\n\treturn deriveEqualB(x, y), deriveCompareB(x, y)\n}\n",
+			"c.go": "package m\n\ntype C struct {\n\tM map[string][]int\n\tB []B\n}\n\nfunc useC(x, y *C) (bool, uint64) {\n\treturn deriveEqualC(x, y), deriveHashC(x)\n}\n",
+		}},
 		{name: "several-packages", args: []string{"./..."}, files: pkgFiles{
-			"a/a.go": "package a\n\ntype A struct {\n\tX int\n\tS []string\n\ttags []string\n}\n\nfunc use(x, y *A) bool {\n\treturn deriveEqual(x, y)\n}\n",
-			"b/b.go": "package b\n\ntype B struct {\n\tM map[string]int\n}\n\nfunc use(x, y *B) int {\n\treturn deriveCompare(x, y)\n}\n",
+			// a and b each define and call a function named like the first helper name the other one mints
+			"a/a.go": "package a\n\ntype A struct {\n\tX int\n\tS []string\n\ttags []string\n}\n\nfunc deriveCompare_(x int) int { return x }\n\nvar _ = deriveCompare_(1)\n\nfunc use(x, y *A) bool {\n\treturn deriveEqual(x, y)\n}\n",
+			"b/b.go": "package b\n\ntype B struct {\n\tM map[string]int\n}\n\nfunc deriveEqual_(x int) int { return x }\n\nvar _ = deriveEqual_(1)\n\nfunc use(x, y *B) int {\n\treturn deriveCompare(x, y)\n}\n",
 			"c/c.go": "package c\n\nimport \"example.com/m/a\"\n\ntype C struct {\n\tA *a.A\n\tL []a.A\n}\n\nfunc use(x, y *C) (bool, uint64) {\n\treturn deriveEqual(x, y), deriveHash(x)\n}\n",
 		}},
 		{name: "autoname-dedup-fresh-names", args: []string{"."}, flags: []string{"-autoname", "-dedup"}, files: pkgFiles{"a.go": `package m
@@ -238,7 +247,11 @@ func checkC08(tier string) {
 			}
 		}
 		args := append([]string{"explore", fmt.Sprint(bound), fmt.Sprint(maxExec), an, dd, fmt.Sprint(maxSec), root}, sc.args...)
-		r := run(root, 60*time.Minute, nil, drv, args...)
+		var env []string
+		if sc.reload {
+			env = []string{"MCRT_RELOAD=1"}
+		}
+		r := run(root, 60*time.Minute, env, drv, args...)
 		var er exploreReport
 		if err := json.Unmarshal([]byte(lastLine(r.Stdout)), &er); err != nil || r.Exit != 0 {
 			rep.Infra(fmt.Sprintf("explorer failed on %s: exit %d %v %s", sc.name, r.Exit, err, tail(r.Stderr, 800)))
@@ -350,8 +363,8 @@ func lastLine(s string) string {
 // packages are named, in which order, or how they are spelled.
 func c08Invocations(rep *Reporter) int {
 	files := pkgFiles{
-		"store/store.go": "package store\n\ntype Record struct {\n\tID   int\n\tName string\n\ttags []string\n\tmeta map[string]int\n}\n\nfunc same(a, b *Record) bool {\n\treturn deriveEqual(a, b)\n}\n",
-		"api/api.go":     "package api\n\nimport \"example.com/m/store\"\n\ntype Req struct {\n\tR *store.Record\n\tL []store.Record\n}\n\nfunc same(a, b *Req) (bool, int) {\n\treturn deriveEqual(a, b), deriveCompare(a.R, b.R)\n}\n",
+		"store/store.go": "package store\n\ntype Record struct {\n\tID   int\n\tName string\n\ttags []string\n\tmeta map[string]int\n}\n\nfunc deriveCompare_(x int) int { return x }\n\nvar _ = deriveCompare_(1)\n\nfunc same(a, b *Record) bool {\n\treturn deriveEqual(a, b)\n}\n",
+		"api/api.go":     "package api\n\nimport \"example.com/m/store\"\n\ntype Req struct {\n\tR *store.Record\n\tL []store.Record\n}\n\nfunc deriveEqual_(x int) int { return x }\n\nvar _ = deriveEqual_(1)\n\nfunc same(a, b *Req) (bool, int) {\n\treturn deriveEqual(a, b), deriveCompare(a.R, b.R)\n}\n",
 		"util/util.go":   "package util\n\nfunc keys(m map[string]int) []string {\n\treturn deriveSort(deriveKeys(m))\n}\n",
 		// textually the same nested call as in util (needs a second pass in both packages)
 		"bill/bill.go": "package bill\n\nfunc keys(m map[string]int) []string {\n\treturn deriveSort(deriveKeys(m))\n}\n\nfunc same(a, b []string) bool {\n\treturn deriveEqual(a, b)\n}\n",
